@@ -139,6 +139,14 @@ def single_case(ctx, case):
                 # flipping a window byte may keep t inside the window only if the signature still verified: it cannot
                 judge(ctx, [w2, lock], cache, False, {'lock': 'delegate_key_lock', 'corruption': 'certificate byte'},
                       f'certificate byte {bi} flipped', t)
+            # only a certificate is a certificate: the same bytes with one more or one less (at either end) are not
+            head = w[:off - 2]           # everything before the push of the certificate
+            cb = w[off:]
+            for what, blob in (('one byte appended', cb + b'\x00'), ('flag-like byte appended', cb + b'\x01'), ('two bytes appended', cb + b'\x00\x00'),
+                               ('one byte prepended', b'\x00' + cb), ('last byte dropped', cb[:-1]), ('first byte dropped', cb[1:])):
+                n += 1
+                judge(ctx, [head + P(blob), lock], cache, False, {'lock': 'delegate_key_lock', 'corruption': 'certificate length'},
+                      f'certificate with {what}', t)
     ctx.evaluations += n - 1
 
 
@@ -361,6 +369,53 @@ def zero_ts_case(ctx, case):
 VALS = [0, 1, 127, 128, 255, 256, 32767, 32768, 65535, 65536, 2 ** 24 - 1, 2 ** 24, 2 ** 31 - 1]
 
 
+def clock_history_case(ctx, case):
+    """the execution timestamp is not given by the embedder (the run takes the verifier clock): verifications made one after
+    the other with the clock moving - the same fields dict reused, a fresh one, no cache at all - each see the clock of their own
+    call; the caller's dict is left as it was"""
+    lockkind, form, steps = case
+    seed = ctx.seed
+    sk, pk = keys(seed)
+    fields = sf(seed) if form != 'no cache argument' else {}
+    b, e = TNOW, TNOW + 1000
+    if lockkind == 'single':
+        c = cert(seed, 'x', 'root', 'd1', b, e, True)
+        lock = T.make_delegate_key_lock(pk['root']).bytes
+        w = T.make_delegate_key_witness(sk['d1'], c, dict(fields)).bytes
+    else:
+        links = [('root', 'd1', b, e, True), ('d1', 'd2', b, e, True)]
+        lock = T.make_delegate_key_chain_lock(pk['root']).bytes
+        w = chain_witness(seed, links, 'd2', dict(fields))
+    reused = dict(fields)
+    for i, dt in enumerate(steps):
+        now = TNOW + dt
+        env.Clock.now = now
+        if form == 'same dict reused':
+            given = reused
+        elif form == 'fresh dict':
+            given = dict(fields)
+        else:
+            given = None
+        before = dict(given) if given is not None else None
+        try:
+            v = F.run_auth_scripts([w, lock], given) if given is not None else F.run_auth_scripts([w, lock])
+        except BaseException as ex:
+            v = ex
+        ctx.ran()
+        ctx.trans(2)
+        ctx.state(('clock history', lockkind, form, steps, i))
+        rv, _ = ref_auth([w, lock], ro={**fields, 'timestamp': now}, now=now)
+        ctx.ran()
+        ctx.outcome('history:%s' % (v if type(v) is bool else 'raised'))
+        if type(rv) is bool and v is not rv:
+            ctx.violation({'lock': lockkind, 'block': 'clock histories', 'form': form, 'kind': 'accepts' if v is True else 'rejects'},
+                          f'{lockkind} lock, window [{b}, {e}), call {i + 1} of clocks {[TNOW + d for d in steps]} ({form}): '
+                          f'run_auth_scripts {v!r}, on its own {rv}')
+        if given is not None and given != before:
+            ctx.violation({'lock': lockkind, 'block': 'clock histories', 'clause': 'the caller\'s dict is left as it was'},
+                          f'{form}: {sorted(set(given) - set(before))} added')
+
+
 def cert_case(ctx, begin):
     n = 0
     Cert = T.Certificate
@@ -444,6 +499,10 @@ def blocks(tier, seed):
         Block('timestamp_zero', [(now, w) for now in (0, 30, 1000, TNOW) for w in ((0, 1000), (0, 1), (1, 1000), (0, 0), (TNOW - 100, TNOW + 100))] +
               [(TNOW - d, (b0, 2 ** 31 - 1), TNOW) for d in (0, 59, 60, 3600, 86400) for b0 in (0, 1, 255, 256)],
               zero_ts_case, 'execution timestamp 0 x clock {0, 30, 1000, now} x five windows; windows beginning at 0 / 1 / 255 / 256 with the timestamp 0..86400 s ahead of the clock; single and chain lock', nshards=20),
+        Block('clock_histories_without_embedder_timestamp',
+              [(lk, fm, st) for lk in ('single', 'chain') for fm in ('same dict reused', 'fresh dict', 'no cache argument')
+               for st in ((500, 1000), (500, 999, 1000, 1500), (-1, 0), (1500, 500), (0, 0), (999, -5, 500))], clock_history_case,
+              'single / chain lock x 3 ways of not passing a timestamp x 6 clock sequences across the window edges', nshards=12),
         Block('certificate_serialisation', VALS, cert_case, 'begin x end over boundary values x flag x key patterns; issued certificates with one field edited afterwards', nshards=len(VALS)),
     ]
 
